@@ -167,7 +167,7 @@ func (b *Builder) addFields(n *Node, m *V, slot string, depth int) {
 		if m.Get(f.Key) != nil {
 			continue // two fields sharing one key (jsonlines buffer-size): written once
 		}
-		if b.Minimal && f.Validate == "" {
+		if b.Minimal && onlyRelations(f.Validate) {
 			continue
 		}
 		x := b.Value(f.Node, f.Validate, slot+"/"+f.Key, depth)
@@ -175,6 +175,16 @@ func (b *Builder) addFields(n *Node, m *V, slot string, depth int) {
 			m.M = append(m.M, KV{f.Key, x})
 		}
 	}
+}
+
+// onlyRelations: no validate tag of its own (ctor-rel pseudo tags talk about the options TOGETHER, not about this one)
+func onlyRelations(validate string) bool {
+	for _, t := range strings.Split(validate, ",") {
+		if t != "" && !strings.HasPrefix(t, "ctor-rel=") {
+			return false
+		}
+	}
+	return true
 }
 
 // FlatFields lists the fields of a struct node after squashing.
